@@ -149,6 +149,15 @@ func newMgrWorld(base []byte, keyBytes [][]byte, who int) (*mgrWorld, error) {
 			vld.stat.GetByKind(v.Kind()).AddVal(v)
 			vld.stat.GetByKind(params.KindValidator).AddVal(v)
 		}
+		// an OFFLINE chamber member: counts in the kind's offline stake only; the committee fraction is over ONLINE stake
+		if ok, err := crypto.ToECDSA(crypto.Keccak256(keyBytes[0])); err == nil {
+			st := int64(40000) * int64(t+1)
+			v := state.NewValidator("offline", common.Address{9}, common.Address{9}, params.RoleChancellor,
+				crypto.CompressPubkey(&ok.PublicKey), nil, big.NewInt(st*1000), big.NewInt(st), 0, 0, 0, params.ValidatorOffline)
+			vld.vals[crypto.PubkeyToAddress(ok.PublicKey)] = v
+			vld.stat.GetByKind(v.Kind()).AddVal(v)
+			vld.stat.GetByKind(params.KindValidator).AddVal(v)
+		}
 		ch.readers[t] = vld
 	}
 	w.ch, w.yp = ch, yp
@@ -273,6 +282,60 @@ func (w *mgrWorld) checkView(k mkey, f fresh, v *ucon.StepView) string {
 	}
 	if vs != want || vp != "accept" {
 		return fmt.Sprintf("exported verifiers say %s/%s for this round's seed (want %s/accept)", vs, vp, want)
+	}
+	return ""
+}
+
+// headerVotes: the third code path. The Precommit / Certificate credentials the live prover issues (fresh, for the protocol
+// committee and the live path's stake inputs) of BOTH chamber validators are put, signed, into a header's vote list and
+// given to the real Server.verifyVotes (what VerifyHeader runs): it must count exactly the seat counts the provers were
+// issued — quorum reached iff OverThreshold(j1 + j2) — and must not count an inflated seat count.
+func (w *mgrWorld) headerVotes(base []byte, k mkey, fr fresh) string {
+	if w.who > 1 || !fr.eligible {
+		return ""
+	}
+	isCert := k.step == uint32(ucon.Certificate)
+	lb := lbOf(k.step)
+	stakeType := params.LookBackStake
+	if isCert {
+		stakeType = params.LookBackCertStake
+	}
+	round := big.NewInt(k.round)
+	other := w.keys[1-w.who]
+	stakeO, totalO, _, _, _, err := w.srv.StakeInfo(round, crypto.PubkeyToAddress(other.PublicKey), false, lb)
+	if err != nil {
+		return ""
+	}
+	vskO, err := secp256k1VRF.NewVRFSigner(other)
+	if err != nil {
+		return ""
+	}
+	_, proofO, jO := ucon.VrfSortition(vskO, fr.seed, k.index, k.step, fr.thr, stakeO, totalO)
+	hh := crypto.Keccak256(base, round.Bytes(), []byte{byte(k.index), byte(k.step)})
+	payload := append(append([]byte{}, hh...), append(round.Bytes(), byte(k.index>>24), byte(k.index>>16), byte(k.index>>8), byte(k.index))...)
+	sigMe, e1 := ucon.Sign(w.keys[w.who], payload)
+	sigO, e2 := ucon.Sign(other, payload)
+	reader, e3 := w.srv.S.GetLookBackVldReader(&w.yp.CaravelParams, round, stakeType)
+	if e1 != nil || e2 != nil || e3 != nil {
+		return ""
+	}
+	run := func(votes []ucon.SingleVote) (err error) {
+		defer func() {
+			if rec := recover(); rec != nil {
+				err = fmt.Errorf("panic: %v", rec)
+			}
+		}()
+		return w.ver.VerifyVotes(reader, hh, fr.seed, round, k.index, fr.thr, votes, k.step, params.KindChamber, !isCert)
+	}
+	votes := []ucon.SingleVote{{Votes: fr.j, Proof: fr.proof, Signature: sigMe}, {Votes: jO, Proof: proofO, Signature: sigO}}
+	want := ucon.OverThreshold(fr.j+jO, fr.thr, !isCert)
+	if got := run(votes); (got == nil) != want {
+		return fmt.Sprintf("header-side verifyVotes says %v for the two honestly issued credentials (%d + %d seats of committee %d, quorum reached: %v): prover, live verifier and header verification must agree on j", got, fr.j, jO, fr.thr, want)
+	}
+	votes[0].Votes = fr.j + 1000
+	want = ucon.OverThreshold(jO, fr.thr, !isCert)
+	if got := run(votes); (got == nil) != want {
+		return fmt.Sprintf("header-side verifyVotes says %v when one vote claims %d seats instead of %d (only %d seats verify)", got, fr.j+1000, fr.j, jO)
 	}
 	return ""
 }
@@ -420,6 +483,14 @@ func (h *harness) mgrScript(base []byte, keyBytes [][]byte, who int, script stri
 			wantOK := f[0] == "P" || fr.j > 0
 			if (lerr == nil) != wantOK {
 				report("oracle", "oracle-live-verifier", fmt.Sprintf("%s: the node-level verifier says %v for the credential issued for the protocol committee %d (%d seats): prover, verifier and header verification must agree on j", op, lerr, fr.thr, fr.j))
+			}
+		}
+		if f[0] == "V" && (k.step == uint32(ucon.Precommit) || k.step == uint32(ucon.Certificate)) {
+			if why := w.headerVotes(base, k, fr); why != "" {
+				report("oracle", "oracle-header-votes", op+": "+why)
+			}
+			if record {
+				h.res.Dist("mgr-header-votes")
 			}
 		}
 		var ok bool
